@@ -65,7 +65,7 @@ ArcInit == /\ Init
            /\ win = {z \in Ideal2 : OnArc(p, z, q)}
            /\ wout = {z \in Ideal2 : OnArc(q, z, p)}
 
-SmallPts == \A z \in win \cup wout \cup {p, q} : \A i \in 1..3 : Abs(z[i]) <= 3000
+SmallPts == \A z \in win \cup wout \cup {p, q} : \A i \in 1..3 : Abs(z[i]) <= 600          \* 6 b^3 < 2^31
 
 ArcApply(a) ==
   /\ SmallPts
